@@ -345,6 +345,38 @@ Proof.
   intros q qpath pk0 pk0' H0. apply (IH k'); [lia | exact H0].
 Qed.
 
+(* ---------- conversely, every run of the relation is computed, with enough fuel: the relation is
+   exactly what the function computes ---------- *)
+Lemma Run_complete :
+  (forall p path pk new, Run p path pk new ->
+     exists k, forall k', (k <= k')%nat -> eval k' p path pk = Ok (pk ++ new)) /\
+  (forall path rs pk new, RunReqs path rs pk new ->
+     exists k, forall k', (k <= k')%nat -> fold_reqs (eval k') path rs pk = Ok (pk ++ new)).
+Proof.
+  apply Run_both.
+  - intros p path pk new _ [k Hk] Hw. exists (S k). intros k' Hle.
+    destruct k' as [|k']; [lia|]. cbn [ReqEmbed.eval]. rewrite Hk by lia. cbn [bind]. rewrite Hw. reflexivity.
+  - intros path pk. exists O. intros k' _. cbn. rewrite app_nil_r. reflexivity.
+  - intros path n gl rest pk new Hc Hn _ [k Hk]. exists k. intros k' Hle.
+    cbn [ReqEmbed.fold_reqs ReqEmbed.step bind]. rewrite Hc. cbn [bind].
+    apply mem_name_In in Hn. rewrite Hn. cbn [bind]. apply Hk, Hle.
+  - intros path n gl rest pk qpath q new1 new2 Hc Hn Hl _ [k1 Hk1] _ [k2 Hk2].
+    exists (Nat.max k1 k2). intros k' Hle.
+    cbn [ReqEmbed.fold_reqs ReqEmbed.step bind]. rewrite Hc. cbn [bind].
+    apply mem_name_false in Hn. rewrite Hn, Hl. cbn [bind].
+    rewrite Hk1 by lia. cbn [bind]. rewrite <- app_assoc. cbn [app].
+    rewrite Hk2 by lia. rewrite <- app_assoc. reflexivity.
+Qed.
+
+Lemma eval_iff_Run p path pk pk' :
+  (exists k, eval k p path pk = Ok pk') <-> (exists new, pk' = pk ++ new /\ Run p path pk new).
+Proof.
+  split.
+  - intros [k H]. eapply eval_sound, H.
+  - intros (new & -> & HR). destruct (proj1 Run_complete _ _ _ _ HR) as [k Hk].
+    exists k. apply Hk. lia.
+Qed.
+
 (* ------------------------------------------------------------------------------------------
    The build as a whole *)
 Lemma build_lua_inv fuel mp mc r pk :
